@@ -62,3 +62,6 @@ func Property(id string) *PropSpec {
 	}
 	return nil
 }
+
+// SetProg tells name helpers which program is being analysed (rename re-identification of methods).
+func SetProg(p *core.Prog) { methodNameProg = p }
